@@ -76,6 +76,9 @@ type Fun struct {
 	Env     *Env
 	Pkg     string
 	ID      int
+	// Bound collects every global name the function value was bound under
+	// (a stack trace may legitimately show any of them).
+	Bound map[string]bool
 }
 
 // Frame is one active call in the model's chain.
@@ -85,6 +88,7 @@ type Frame struct {
 	Kind FunKind
 	Tail bool // the call sits in tail position of its caller's body
 	Anon bool
+	Fn   *Fun
 }
 
 // Err is a model error.
